@@ -358,11 +358,26 @@ class ExprMixin:
         if attr in ("__module__", "__name__", "__qualname__", "__doc__"):
             return [(st, VStr(z3.FreshConst(z3.StringSort(), "dunder")))]
         if b.cls is not None and not cx.spec:
+            # a virtual contract of an ancestor stands for the dynamic dispatch -- unless every class the object may have resolves the
+            # method to one and the same override below that ancestor (then the override's own contract is used, statically)
+            stop = None
+            try:
+                cands0 = self.candidate_classes(st, b) or []
+                defs = set()
+                for c in cands0:
+                    fm = self.repo.find_method(c, attr)
+                    defs.add(fm[0].qn if fm else None)
+                if len(defs) == 1 and None not in defs:
+                    stop = defs.pop()
+            except Exception:
+                stop = None
             for c in self.repo.mro(b.cls):
                 vc = self.reg.contracts.get(c + "." + attr)
                 if vc is not None and vc.virtual and (vc.only_in is None or cx.fn in vc.only_in or
                                                       any(cx.fn.startswith(x + ".") for x in vc.only_in)):
                     return [(st, VFunc("contract", c + "." + attr, self_val=b, qn=c + "." + attr))]
+                if stop is not None and self.repo.canonical(c) == stop:
+                    break
         cands = self.candidate_classes(st, b)
         # class-level: properties and methods, grouped by implementation
         groups = {}
@@ -541,6 +556,10 @@ class ExprMixin:
         return outs
 
     def binop(self, op, a, b, st, cx):
+        if cx.spec:
+            # contracts use an Optional under a `!= None` guard; unwrap it
+            a = mk_val(a.sort.the(a.t), a.sort.inner) if isinstance(a, VOpt) else a
+            b = mk_val(b.sort.the(b.t), b.sort.inner) if isinstance(b, VOpt) else b
         if isinstance(op, ast.Add):
             if isinstance(a, VStr) and isinstance(b, VStr):
                 return VStr(z3.simplify(z3.Concat(a.t, b.t)))
@@ -609,6 +628,14 @@ class ExprMixin:
 
     def compare(self, op, a, b, st, cx):
         a, b = self.as_type(a), self.as_type(b)
+        if cx.spec and isinstance(op, (ast.Eq, ast.NotEq)):
+            # a contract comparing values of different Python kinds is a typo (e.g. a field resolved to another class's sort), never intended
+            kinds = (VInt, VBool, VStr, VRef, VList, VTuple, VRec)
+            ka = next((k for k in kinds if isinstance(a, k)), None)
+            kb = next((k for k in kinds if isinstance(b, k)), None)
+            num, seq = (VInt, VBool), (VList, VTuple)
+            if ka and kb and ka is not kb and not (ka in num and kb in num) and not (ka in seq and kb in seq):
+                raise Unsupported("contract error: compares a %s with a %s (always %s): %r vs %r" % (ka.__name__, kb.__name__, isinstance(op, ast.NotEq), a, b))
         if isinstance(op, ast.Eq):
             return val_eq(a, b)
         if isinstance(op, ast.NotEq):
@@ -715,6 +742,15 @@ class ExprMixin:
         raise Unsupported("slice of %r" % (b,))
 
     def index(self, b, i, st, cx):
+        if isinstance(b, VOpt):
+            if self.feasible(st, b.sort.is_none(b.t)) and not cx.spec:
+                t_, f_ = self.fork(st, b.sort.is_none(b.t))
+                if t_ is not None:
+                    self.raise_(cx, t_, "builtins.TypeError")
+                if f_ is None:
+                    return []
+                st = f_
+            b = mk_val(b.sort.the(b.t), b.sort.inner)
         if isinstance(b, VTuple):
             ic = coerce(i, Int).conc() if isinstance(i, (VInt, VBool)) else None
             if ic is not None:
@@ -1188,4 +1224,4 @@ SPEC_BUILTINS = {"implies", "iff", "old", "forall", "exists", "isinst", "cls_is"
                  "field", "len", "str", "all", "any", "range", "int", "bool", "isinstance", "type", "zip", "enumerate",
                  "list", "tuple", "concat", "prefix_of", "seq_eq", "allocated", "unchanged", "strlen", "substr",
                  "startswith", "endswith", "contains", "old_field", "replace", "min", "max", "abs", "index_of", "in_re_ws",
-                 "set_subset", "lemma", "dict_keys", "store", "const_map", "any_value", "is_flattening", "is_filtering", "cls", "u_is_str", "u_is_obj", "u_is_list", "u_list", "u_str", "u_obj", "monotone", "stable_except", "live", "float_text", "frame", "same_class", "is_new", "is_space", "str_repeat", "pigeonhole", "card", "result_is_new", "str_from_int", "at"}
+                 "set_subset", "lemma", "dict_keys", "store", "const_map", "any_value", "repo", "is_flattening", "is_filtering", "cls", "u_is_str", "u_is_obj", "u_is_list", "u_list", "u_str", "u_obj", "monotone", "stable_except", "live", "float_text", "frame", "same_class", "is_new", "is_space", "str_repeat", "pigeonhole", "card", "result_is_new", "str_from_int", "at", "keys_within"}
